@@ -53,10 +53,13 @@ class StrEval:
         from .rules.common import fold_in_func
         if isinstance(node, ast.Constant) and isinstance(node.value, str):
             return node.value, 0
-        try:
-            v = fold_in_func(self.ctx, self.fi, node) if self.fi is not None else None
-        except AnalysisError:
-            v = None
+
+        def compute():
+            try:
+                return fold_in_func(self.ctx, self.fi, node) if self.fi is not None else None
+            except AnalysisError:
+                return None
+        v = self.ctx.cache(('streval-fold', self.fi.fullname if self.fi is not None else None, ast.unparse(node)), compute)
         if isinstance(v, str):
             return v, 0
         if v is not None and hasattr(v, 'pattern') and isinstance(v.pattern, str):
@@ -74,6 +77,22 @@ class StrEval:
                 return Match(s, i, e)
         return None
 
+    def _folded(self, node):
+        from .rules.common import fold_in_func
+        from .fold import is_unknown
+
+        def compute():
+            try:
+                return fold_in_func(self.ctx, self.fi, node) if self.fi is not None else None
+            except AnalysisError:
+                return None
+        v = self.ctx.cache(('streval-fold', self.fi.fullname if self.fi is not None else None, ast.unparse(node)), compute)
+        if v is None or is_unknown(v):
+            raise Unsupported(f"`{ast.unparse(node)[:40]}` does not fold")
+        if isinstance(v, (str, int, tuple, list, dict, set, frozenset, bool)):
+            return v
+        raise Unsupported(f"`{ast.unparse(node)[:40]}` is not a plain constant")
+
     # -- evaluation ------------------------------------------------------
     def ev(self, e, depth=0):
         if depth > 25:
@@ -90,7 +109,24 @@ class StrEval:
                 return self.env[e.id]
             if e.id in self.defs and len(self.defs[e.id]) == 1:
                 return self.ev(self.defs[e.id][0], d)
-            raise Unsupported(f"name {e.id}")
+            return self._folded(e)
+        if isinstance(e, ast.Attribute) and dotted(e) and not isinstance(e.ctx, ast.Store):
+            root = e
+            while isinstance(root, ast.Attribute):
+                root = root.value
+            if isinstance(root, ast.Name) and root.id not in self.env and root.id not in self.defs:
+                return self._folded(e)
+        if isinstance(e, ast.BoolOp):
+            last = None
+            for x in e.values:
+                last = self.ev(x, d)
+                if isinstance(e.op, ast.And) and not last:
+                    return last
+                if isinstance(e.op, ast.Or) and last:
+                    return last
+            return last
+        if isinstance(e, ast.UnaryOp) and isinstance(e.op, ast.Not):
+            return not self.ev(e.operand, d)
         if isinstance(e, ast.JoinedStr):
             out = ''
             for part in e.values:
@@ -147,6 +183,22 @@ class StrEval:
                 except ValueError:
                     raise Unsupported(f"ValueError: int({v!r})")
                 raise Unsupported(name)
+            if name == 're.split' and len(e.args) == 2:
+                pat, flags = self._regex(e.args[0])
+                s_ = self.ev(e.args[1], d)
+                if not isinstance(s_, str):
+                    raise Unsupported('subject is not a string')
+                L = rx.Lang(pat, flags)
+                out, i, last = [], 0, 0
+                while i <= len(s_):
+                    en = L.first_end(s_, i)
+                    if en is None or en == i:
+                        i += 1
+                        continue
+                    out.append(s_[last:i])
+                    last = i = en
+                out.append(s_[last:])
+                return out
             if name in ('re.sub', 're.search', 're.match', 're.fullmatch'):
                 pat, flags = self._regex(e.args[0])
                 if name == 're.sub':
